@@ -178,6 +178,36 @@ pub fn run(tier: Tier) -> Run {
             }
         }
         run.outcome("cross_type_conversion_pairs", cross);
+        // the same inside one type: from_u32(a) and then from_u32(b) for every ordered pair of (declared value | declared
+        // value +- 1) of that type (at most 400 x 400 per type), and after 300 repetitions of from_u32(a)
+        let mut same = 0u64;
+        for (xi, x) in enum_ops.iter().enumerate() {
+            let mut probe: Vec<u32> = decl[xi].iter().flat_map(|&n| [n, n.wrapping_add(1)]).collect();
+            probe.sort();
+            probe.dedup();
+            let step = (probe.len() / 400).max(1);
+            let probe: Vec<u32> = probe.into_iter().step_by(step).collect();
+            for &a in &probe {
+                for &b in &probe {
+                    let _ = (x.sweep)(a as u64, a as u64, &decl[xi]);
+                    let (_, bad) = (x.sweep)(b as u64, b as u64, &decl[xi]);
+                    same += 1;
+                    for (m, why) in bad {
+                        run.add(viol(format!("C08:{}:from_u32:after-same-type", x.name), format!("{}::from_u32({}) directly after {}::from_u32({}) {}", x.name, m, x.name, a, why), json!({"kind": "c08-pair", "type": x.name, "first": a, "second": m})));
+                    }
+                }
+                if decl[xi].contains(&a) {
+                    for _ in 0..300 {
+                        let _ = (x.sweep)(a as u64, a as u64, &decl[xi]);
+                    }
+                    let (_, bad) = (x.sweep)(a as u64 + 1, a as u64 + 1, &decl[xi]);
+                    for (m, why) in bad {
+                        run.add(viol(format!("C08:{}:from_u32:after-repetition", x.name), format!("{}::from_u32({}) after 300 conversions of {} {}", x.name, m, a, why), json!({"kind": "c08-repeat", "type": x.name, "repeated": a, "then": m})));
+                    }
+                }
+            }
+        }
+        run.outcome("same_type_conversion_pairs", same);
     }
     // ---- number sweeps -------------------------------------------------------------------
     enum Task<'a> {
